@@ -785,6 +785,79 @@ func mutate(s *subject, st *stats, base []byte) {
 		}
 	}
 	heads(fields)
+
+	// the fields of the struct itself (for a block subject: the members inside the block are not touched below)
+	top := fields
+	if s.class != "struct" || len(top) == 0 {
+		return
+	}
+
+	// (e) input that ends at a field boundary, the last byte of the last field taking every value: a decoder that
+	// steps back at the end of the input reads that byte again, as a head.  Numeric payloads and string bytes
+	// only (any value of theirs leaves the field well formed).
+	for _, f := range top {
+		switch f.Type {
+		case ref.WByte, ref.WShort, ref.WInt, ref.WLong, ref.WFloat, ref.WDouble:
+		case ref.WString1, ref.WString4:
+			if len(f.Data) == 0 {
+				continue
+			}
+		default:
+			continue
+		}
+		f := f
+		for b := 0; b < 256; b++ {
+			in := append(st.scratch[:0], base[:f.End]...)
+			st.scratch = in
+			in[f.End-1] = byte(b)
+			if _, _, perr, _ := ref.DecodePrefix(s.st, in); perr != nil {
+				switch ref.CodeOf(perr) {
+				case ref.ErrNone, ref.ErrTruncated, ref.ErrLength, ref.ErrStructEnd:
+				default:
+					continue // (a non-canonical or otherwise ill-formed field: not this property's input)
+				}
+			}
+			b := b
+			judge(s, st, base, in, "field-boundary-last-byte", func() string {
+				return fmt.Sprintf("input ends after the field with tag %d (offset %d), its last byte set to %#02x", f.Tag, f.End, b)
+			}, func() string { return "made-up-value-after-end-of-input:" + f.Type.String() })
+		}
+	}
+
+	// (f) a field the receiver does not know (STRING1/STRING4 at a free tag), cut one byte short, whose payload is
+	// what the later members look like on the wire: a decoder that does not move past a field it cannot skip
+	// in full reads the payload as those members
+	for k := 0; k+1 <= len(top); k++ {
+		// gap before top[k] (k == len(top) is pointless: nothing follows)
+		lo := -1
+		if k > 0 {
+			lo = int(top[k-1].Tag)
+		}
+		if k >= len(top) {
+			break
+		}
+		hi := int(top[k].Tag)
+		if hi-lo < 2 {
+			continue // no free tag here
+		}
+		u := uint8(lo + 1)
+		payload := append(append([]byte{}, base[top[k].Start:]...), 0x00)
+		var unk []byte
+		if len(payload) <= 255 {
+			unk = append(ref.AppendHead(nil, u, ref.WString1), byte(len(payload)))
+		} else {
+			unk = ref.AppendHead(nil, u, ref.WString4)
+			unk = binary.BigEndian.AppendUint32(unk, uint32(len(payload)))
+		}
+		in := append(st.scratch[:0], base[:top[k].Start]...)
+		in = append(in, unk...)
+		in = append(in, payload[:len(payload)-1]...)
+		st.scratch = in
+		k := k
+		judge(s, st, base, in, "unknown-field-cut", func() string {
+			return fmt.Sprintf("unknown string field at the free tag %d before the member with tag %d, announcing %d bytes of which %d are there (they are the encodings of the later members)", u, top[k].Tag, len(payload), len(payload)-1)
+		}, func() string { return "made-up-value-from-the-payload-of-a-cut-unknown-field" })
+	}
 }
 
 func (w where) sigInflate() string {
